@@ -25,7 +25,12 @@ func init() {
 		Doc: "every single-bit flip of one full wire record (18-byte header + body + 16-byte MAC) for body sizes {0,1,17,65535}, at record index {0,499,500} (around the first key rotation), XX and KK sessions (quick tier: body bits of the 65535-byte record sampled every 101st bit, thorough: all)",
 	})
 	simrt.Register(&simrt.Scenario{
-		Prop: "C02", Name: "edit-scripts", Count: tiered(2500, 200000),
+		Prop: "C02", Name: "replay-across-rotation", Enumerated: true, Count: fixed(2 * 3 * 4),
+		Run: c02RotationReplay, MaxOps: 1 << 40, Serial: true, Horizon: time.Hour,
+		Doc: "long streams (two key rotations): the relay delivers records 0..k+499 (or k+999) and then, in place of the next record, replays record k - the record that used the same nonce position one (two) key epochs earlier - for k in {0,1,2,499}, XX and KK, three equal-plaintext / distinct-plaintext layouts",
+	})
+	simrt.Register(&simrt.Scenario{
+		Prop: "C02", Name: "edit-scripts", Count: tiered(12000, 200000),
 		Run: c02Scripts, MaxOps: 2 << 20, Horizon: time.Hour,
 		Doc: "both directions of an XX/KK session exposed through Machine, NoiseConn or NoiseGrpcConn; random scripts of 1-4 edits (drop, duplicate, swap, replay-earlier, reflect-other-direction, truncate, inject, bit flip, at record boundaries and mid-record offsets) applied to the ciphertext stream; the reader's output must be a prefix of what was written and stay failed after the first error",
 	})
@@ -397,4 +402,71 @@ func kindsOf(es []c02Edit) []string {
 		out = append(out, e.kind)
 	}
 	return out
+}
+
+func c02RotationReplay(rc *simrt.RunCtx) {
+	idx := rc.Idx()
+	kk := idx%2 == 1
+	layout := (idx / 2) % 3 // 0: distinct plaintexts, 1: all equal, 2: empty records
+	k := []int{0, 1, 2, 499}[(idx/6)%4]
+	s := establish(rc, kk, 32)
+	if s == nil {
+		return
+	}
+	w, r := s.cli.conn.noise, s.srv.conn.noise
+	total := 1502
+	var recs [][]byte
+	var plains [][]byte
+	for i := 0; i < total; i++ {
+		var p []byte
+		switch layout {
+		case 0:
+			p = marker(uint64(i)+31, 24)
+		case 1:
+			p = marker(7, 24)
+		}
+		var buf bytes.Buffer
+		if err := w.WriteMessage(p); err != nil {
+			rc.HarnessError("WriteMessage: %v", err)
+			return
+		}
+		if _, err := w.Flush(&buf); err != nil {
+			rc.HarnessError("Flush: %v", err)
+			return
+		}
+		recs = append(recs, append([]byte(nil), buf.Bytes()...))
+		plains = append(plains, p)
+	}
+	for _, epochs := range []int{1, 2} {
+		pos := k + 500*epochs
+		if pos+1 >= total {
+			continue
+		}
+		m := *r // every attempt starts from the reader's post-handshake state
+		var stream bytes.Buffer
+		for i := 0; i < pos; i++ {
+			stream.Write(recs[i])
+		}
+		stream.Write(recs[k]) // the replay, where record pos belongs
+		stream.Write(recs[pos+1])
+		for i := 0; i < pos; i++ {
+			got, err := m.ReadMessage(&stream)
+			if err != nil || !eqBytes(got, plains[i]) {
+				rc.Violate("c02.rotation", "authentic-record-rejected", "kk=%v: authentic record %d of a long stream does not decrypt: %v", kk, i, err)
+				return
+			}
+		}
+		got, err := m.ReadMessage(&stream)
+		if err == nil {
+			rc.Violate("c02.replay-accepted", "replay-across-rotation", "kk=%v layout %d: record %d replayed in place of record %d (%d key epoch(s) later, same nonce position) was returned as valid (%d bytes, equal to the original: %v)", kk, layout, k, pos, epochs, len(got), eqBytes(got, plains[k]))
+			return
+		}
+		if got2, err2 := m.ReadMessage(&stream); err2 == nil {
+			rc.Violate("c02.valid-after-error", "replay-across-rotation", "kk=%v: after the rejected replay the next record was returned as valid (%d bytes)", kk, len(got2))
+			return
+		}
+	}
+	rc.Sample("kk=%v layout=%d: record %d replayed at positions %d and %d of a %d-record stream: rejected", kk, layout, k, k+500, k+1000, total)
+	rc.Progress()
+	rc.Fault(fmt.Sprintf("rotation-replay-%d", idx))
 }
